@@ -13,6 +13,7 @@ CONFIGS = {
     "q": [("c_2dec_w", dict(progs=[[A(-1)], [A(-1)], [W()]], init={"V0": 2}, V0=2)),
           ("c_dec_wt", dict(progs=[[A(-1), VAL], [W(1), VAL]], init={"V0": 1}, V0=1, MaxNow=1)),
           ("c_updown", dict(progs=[[A(1), A(-1), A(-1)], [W(), A(0)]], init={"V0": 1}, V0=1)),
+          ("c_up0", dict(progs=[[A(1), A(-1)], [VAL, VAL]], init={"V0": 0}, V0=0)),       # raised from zero (the ASSERT that nobody has waited yet)
           ("c_zero", dict(progs=[[W(), W(1)], [VAL, A(0)]], init={"V0": 0}, V0=0, MaxNow=1)),
           ("c_2w", dict(progs=[[A(-1)], [W()], [W(1)]], init={"V0": 1}, V0=1, MaxNow=1)),
           # four threads: behaviours from TLC's simulation mode, every generated transition replayed once
